@@ -9,6 +9,8 @@ BLANK = {"e": "", "j": 0, "badctx": False, "out": "", "body": "empty", "status":
 
 def project(raw_events, scenario, bound=None):
     out = [dict(BLANK, e="Begin", sid=scenario.get("id", ""))]
+    secs = max(1, int(scenario.get("opt", {}).get("timeoutMs", 1000)) // 1000)
+    timeout_len = len("Task timed out after %d.00 seconds" % secs)
     fecall = {}
     invret = {}
     for ev in raw_events:
@@ -35,7 +37,7 @@ def project(raw_events, scenario, bound=None):
                 body = "empty"
             elif ir and ev.get("sha") == ir.get("sha"):
                 body = "b%d" % ev["j"]
-            elif ev.get("body") == "timeout":
+            elif ev.get("body") == "timeout" and ev.get("size") == timeout_len:     # the exact text, nothing appended
                 body = "timeout-text"
             else:
                 body = "other"
